@@ -879,6 +879,19 @@ def check_rectified(P, R):
                 t = au.src(n.left).replace(' ', '')
                 if t in ('self.node', 'u.node') or t in subj:
                     hits.append(n)
+        # the signed reference handed to a callee that may look at it
+        for c in au.calls_in(f.node):
+            if au.call_name(c) in ('abs', 'ValueError', 'isinstance',
+                                   'AssertionError', 'repr', 'str') or \
+                    au.call_name(c) in {x.rsplit('.', 1)[1]
+                                        for x in RECTIFIED}:
+                # (delegation to another rectified view is fine)
+                continue
+            for a in list(c.args) + [k.value for k in c.keywords]:
+                t = au.src(a).replace(' ', '')
+                if t in ('self.node', 'u.node') or (
+                        t in subj and au.call_name(c) != '_wrap'):
+                    hits.append(c)
         if hits:
             R.violation(
                 'R-SIGN', 'rectified-view-signed', q, 'sign',
